@@ -260,3 +260,186 @@ func enclosingIfOn(in ssa.Instruction, pat VPat) *ssa.If {
 	}
 	return nil
 }
+
+func init() {
+	register(&Rule{ID: "C03.R17", Props: []string{"C03", "C05"}, Engine: "E3",
+		Title:   "every Gap Ack Block of a SACK is checked against the in-flight queue before anything is applied: in processSelectiveAck the presence of cumulativeTSNAck+start and of cumulativeTSNAck+end is looked up once per block (inside the loop over the blocks) at a point no queue mutation can precede — checking only the first start and the last end trusts the peer to send the blocks in ascending order, and an unsorted SACK is then half applied (chunks popped and emptied, then an error before the ack point moves), wedging the sender",
+		MinInst: 2,
+		Run: func(c *RuleCtx) {
+			fn := c.Fn("Association.processSelectiveAck")
+			get := c.Fn("payloadQueue.get")
+			pop := c.Fn("payloadQueue.pop")
+			mark := c.Fn("payloadQueue.markAsAcked")
+			var muts []ssa.Instruction
+			for _, g := range c.P.Region(fn) {
+				for _, m := range []*ssa.Function{pop, mark} {
+					for _, cs := range callsIn(g, m) {
+						muts = append(muts, cs.(ssa.Instruction))
+					}
+				}
+			}
+			for _, fname := range []string{"start", "end"} {
+				f := c.field("gapAckBlock", fname)
+				n := 0
+				for _, g := range c.P.Region(fn) {
+					var lookups []ssa.CallInstruction
+					forEachInstr(g, func(y ssa.Instruction) {
+						ci, ok := y.(ssa.CallInstruction)
+						if !ok {
+							return
+						}
+						sc := ci.Common().StaticCallee()
+						// the queue lookup itself, or a small presence helper wrapping it
+						if sc != nil && (sc == get || (c.P.inPkg(sc) && sc != fn && len(callsInDeep(sc, get, 2)) > 0 && len(callsInDeep(sc, pop, 2)) == 0 && len(callsInDeep(sc, mark, 2)) == 0)) {
+							lookups = append(lookups, ci)
+						}
+					})
+					for _, cs := range lookups {
+						in := cs.(ssa.Instruction)
+						fromField := false
+						for _, arg := range cs.Common().Args {
+							if derives(arg, func(v ssa.Value) bool {
+								fld, _ := loadedField(v)
+								if fld == f {
+									return true
+								}
+								if fv, isF := v.(*ssa.Field); isF {
+									return fieldOf(fv.X.Type(), fv.Field) == f
+								}
+								return false
+							}, map[ssa.Value]bool{}) {
+								fromField = true
+							}
+						}
+						if !fromField {
+							continue
+						}
+						// where the lookup happens from the point of view of processSelectiveAck: the
+						// instruction itself, or the call site(s) of the validation helper it sits in
+						sites := []ssa.Instruction{in}
+						if in.Parent() != fn {
+							sites = nil
+							for _, cs2 := range c.P.CallSitesOf(in.Parent()) {
+								if c.P.OwnedBy(cs2.Fn, map[*ssa.Function]bool{fn: true}) || cs2.Fn == fn {
+									sites = append(sites, cs2.Instr)
+								}
+							}
+						}
+						for _, site := range sites {
+							if !inLoop(site) && !inLoop(in) {
+								continue // a single lookup outside the per-block loop does not cover every block
+							}
+							after := false
+							for _, m := range muts {
+								if m.Parent() == site.Parent() && CanReach(m, site) {
+									after = true
+								}
+							}
+							if !after {
+								n++
+							}
+						}
+					}
+				}
+				c.Check(n >= 1, "per-block-lookup:"+fname, c.P.Pos(fn.Pos()), "cumulativeTSNAck+"+fname+" of every block is looked up before any queue mutation", "no per-block presence check of cumulativeTSNAck+"+fname+" precedes the queue mutations: a SACK whose blocks are not in ascending order is applied halfway and then rejected, leaving popped/emptied chunks behind")
+			}
+		}})
+
+	register(&Rule{ID: "C07.R11", Props: []string{"C07"}, Engine: "E3",
+		Title:   "a forward-TSN names every stream it skips in: in createForwardTSN / createIForwardTSN the per-stream entry is updated for every abandoned chunk in the forwarded range, whatever fragment of its message it is — the update is conditioned only on the chunk's abandonment, order flag and the serial comparison with the entry collected so far (the first fragment may already have been acknowledged and left the queue, so 'account for a message at its first fragment' names no stream at all and the receiver's next-expected MID/SSN never moves)",
+		MinInst: 2,
+		Run: func(c *RuleCtx) {
+			ks := keyer{}
+			bf := c.field("chunkPayloadData", "beginningFragment")
+			ef := c.field("chunkPayloadData", "endingFragment")
+			for _, name := range []string{"Association.createForwardTSN", "Association.createIForwardTSN"} {
+				fn := c.Fn(name)
+				n := 0
+				for _, g := range c.P.Region(fn) {
+					forEachInstr(g, func(in ssa.Instruction) {
+						mu, ok := in.(*ssa.MapUpdate)
+						if !ok {
+							return
+						}
+						if _, isMake := mu.Map.(*ssa.MakeMap); !isMake {
+							if ph, isPhi := mu.Map.(*ssa.Phi); !isPhi || ph == nil {
+								return
+							}
+						}
+						n++
+						var bad []string
+						for _, f := range localFactsUpTo(in, fn) {
+							if derives(f.Cond, Or(IsLoadOf(bf), IsLoadOf(ef)), map[ssa.Value]bool{}) {
+								bad = append(bad, fmt.Sprintf("%s=%v", shortValue(c.P, f.Cond), f.Taken))
+							}
+						}
+						c.Check(len(bad) == 0, ks.key("entry-for-any-fragment@"+name), c.Pos(in), "the stream entry is updated whatever fragment the abandoned chunk is", "the stream entry is updated only if "+strings.Join(bad, " ∧ ")+": when that fragment has already left the in-flight queue the stream is not named and the receiver never skips the message")
+					})
+				}
+				c.Check(n >= 1, ks.key("entry-sites@"+name), c.P.Pos(fn.Pos()), fmt.Sprintf("%d entry update(s)", n), "no per-stream entry update found in "+name)
+			}
+		}})
+
+	register(&Rule{ID: "C11.R8", Props: []string{"C11", "C10", "C18"}, Engine: "E3",
+		Title:   "an unset field of a legacy Config value never overrides an option given before it: in Config.applyClient / applyServer every copy of a numeric or pointer option whose zero value means 'not set' (MTU, buffer and message sizes, RTO ceiling, congestion knobs, reassembly limit, logger, connection) is dominated by a test that the source field is non-zero — ClientWithOptions(WithMTU(800), cfg) must keep 800 although cfg.MTU is 0",
+		MinInst: 10,
+		Run: func(c *RuleCtx) {
+			cfgObj := c.P.Types.Scope().Lookup("Config")
+			st, _ := cfgObj.Type().Underlying().(*types.Struct)
+			ks := keyer{}
+			for _, fnName := range []string{"Config.applyClient", "Config.applyServer"} {
+				fn := c.Fn(fnName)
+				// the fields this function copies under a non-zero guard on today's reviewed tree are
+				// exactly the numeric / interface-typed ones; booleans and sub-structs are copied as they are
+				for i := 0; i < st.NumFields(); i++ {
+					f := st.Field(i)
+					guardable := false
+					switch t := f.Type().Underlying().(type) {
+					case *types.Basic:
+						guardable = t.Info()&(types.IsNumeric|types.IsString) != 0
+					case *types.Interface:
+						guardable = true
+					}
+					if !guardable {
+						continue
+					}
+					for _, g := range c.P.Region(fn) {
+						for _, a := range c.storesIn(g, f) {
+							src := map[string]bool{}
+							cfgSources(a.Val, 0, src, map[ssa.Value]bool{})
+							if !src[f.Name()] {
+								continue
+							}
+							ok := DominatedByExt(a.Instr, func(cv ssa.Value, tk bool) bool {
+								b, isB := cv.(*ssa.BinOp)
+								if !isB || (b.Op != token.NEQ && b.Op != token.EQL && b.Op != token.GTR) {
+									return false
+								}
+								zero := func(v ssa.Value) bool {
+									k, isK := v.(*ssa.Const)
+									return isK && (k.Value == nil || k.Value.String() == "0" || k.Value.String() == `""`)
+								}
+								var other ssa.Value
+								switch {
+								case zero(b.Y):
+									other = b.X
+								case zero(b.X):
+									other = b.Y
+								default:
+									return false
+								}
+								fld, base := loadedField(other)
+								if fld != f || base == nil || !isConfigType(base.Type()) {
+									if fv, isF := other.(*ssa.Field); !isF || fieldOf(fv.X.Type(), fv.Field) != f {
+										return false
+									}
+								}
+								return (b.Op == token.EQL) != tk
+							})
+							c.Check(ok, ks.key("copied-only-when-set:"+f.Name()+"@"+fnName), c.Pos(a.Instr), "copied only when the source field is set", "Config."+f.Name()+" is copied even when it is zero: a value given by an earlier option is overwritten with 'unset' and then replaced by the default")
+						}
+					}
+				}
+			}
+		}})
+}
